@@ -15,7 +15,9 @@ def main(tier):
             "formatter side) with the arity of its right-hand side (R-HANDLER); no formatter drops a child that can "
             "derive a non-blank token — def-use closure from each positional parameter to the returned value, "
             "non-blank symbols computed from the grammar; the 22 drops of Indent/Dedent/newline children and the one "
-            "tabled unreachable Comment? are the only ones (R-FMTLINEAR); variadic helpers use all children in order; "
+            "tabled unreachable Comment? are the only ones (R-FMTLINEAR); wherever a formatter glues two children together, every pair of tokens that can meet at "
+            "the seam (LAST x FIRST on the grammar) tokenizes back into the same two tokens (R-ADJACENCY); variadic helpers use all "
+            "children in order; "
             "emboss-format writes a file only after sanity_check_format_result(formatted, original) on the "
             "--check-result path and a failed check skips the write (R-FMTGUARD); the self-check compares symbol and "
             "stripped text per token (R-FMTSELFCHECK). Not decided: idempotence, layout passes, never-raises."))
